@@ -91,8 +91,11 @@ func (l *listener) Serve() error {
 	for {
 		select {
 		case <-l.quit:
+			// nothing is served yet, Stop is waiting for the done signal.
+			close(l.done)
 			return nil
 		case <-l.drain:
+			close(l.done)
 			return nil
 		default:
 		}
@@ -109,8 +112,10 @@ func (l *listener) Serve() error {
 		select {
 		case <-t.C:
 		case <-l.drain:
+			close(l.done)
 			return nil
 		case <-l.quit:
+			close(l.done)
 			return nil
 		}
 	}
